@@ -208,6 +208,7 @@ type incarnation struct {
 	sv      *served
 	created time.Duration
 	used    time.Duration
+	ttl     time.Duration // idle lifetime of this source's entry: 10 x its longest period + 1 s
 }
 
 type evictModel struct {
@@ -219,9 +220,9 @@ type evictModel struct {
 func (m *evictModel) victim() int {
 	best, bestT := -1, time.Duration(1<<62)
 	for s, inc := range m.tracked {
-		k := inc.created
+		k := inc.created + inc.ttl
 		if m.byLastUse {
-			k = inc.used
+			k = inc.used + inc.ttl
 		}
 		if k < bestT {
 			best, bestT = s, k
@@ -250,7 +251,36 @@ func TestC14_RateCapacityPressure(t *testing.T) {
 		phase := time.Duration(rapid.Int64Range(0, int64(time.Second)-1).Draw(t, "phase"))
 		clock.Freeze(epoch.Add(phase))
 		defer clock.Unfreeze()
+		// some sources are on a slower plan of their own (ExtractRates): their entries live longer
+		slow := map[int]bool{}
+		slowPeriod := period * time.Duration(rapid.SampledFrom([]int{2, 6, 60}).Draw(t, "slowFactor"))
+		slowRs, _ := gen.RateSet([]gen.Rate{{Period: slowPeriod, Average: avg, Burst: burst}})
+		if rapid.IntRange(0, 2).Draw(t, "ownPlans") == 0 {
+			for s := 0; s < nsrc; s++ {
+				if rapid.IntRange(0, 2).Draw(t, "slowSource") == 0 {
+					slow[s] = true
+				}
+			}
+		}
+		rsOf := func(src int) (*ratelimit.RateSet, time.Duration) {
+			if slow[src] {
+				return slowRs, 10*slowPeriod + time.Second
+			}
+			return rs, 10*period + time.Second
+		}
 		sut, sutSv := newLimiter(t, rs, capacity)
+		if len(slow) > 0 {
+			sv := &served{}
+			tl, err := ratelimit.New(sv, gen.HeaderExtractor, rs, ratelimit.Capacity(capacity), ratelimit.ExtractRates(ratelimit.RateExtractorFunc(func(r *http.Request) (*ratelimit.RateSet, error) {
+				i, _ := strconv.Atoi(strings.TrimPrefix(r.Header.Get("X-Src"), "s"))
+				set, _ := rsOf(i)
+				return set, nil
+			})))
+			if err != nil {
+				t.Fatalf("ratelimit.New: %v", err)
+			}
+			sut, sutSv = tl, sv
+		}
 		models := []*evictModel{{byLastUse: true, alive: true, tracked: map[int]*incarnation{}}, {byLastUse: false, alive: true, tracked: map[int]*incarnation{}}}
 		var now time.Duration
 		budget := 10*period - 5*time.Second // stay below every entry's own lifetime
@@ -282,8 +312,9 @@ func TestC14_RateCapacityPressure(t *testing.T) {
 							evictions++
 						}
 					}
-					tl, sv := newLimiter(t, rs, 0)
-					inc = &incarnation{tl: tl, sv: sv, created: now}
+					set, ttl := rsOf(src)
+					tl, sv := newLimiter(t, set, 0)
+					inc = &incarnation{tl: tl, sv: sv, created: now, ttl: ttl}
 					m.tracked[src] = inc
 				}
 				inc.used = now
